@@ -1,9 +1,76 @@
-import TartModel.Impl.Exec
+import TartModel.Proofs.ConformLemmas
+/-
+  C03 — returned data conforms to schema and selection whatever resolvers return.
+  The resolver environment, the values it returns (`PyVal`: wrong types, NaN / infinite / huge
+  numbers, strings for numbers, containers, exception instances, objects of unknown classes),
+  schema, document and fuel are universally quantified.  Leaf cases rest on the C10 theorems about
+  the scalar code GENERATED from the repository.
+-/
 namespace Tart.C03
-open Tart
-theorem placeholder_mapSt_length {α β σ : Type} (f : α → σ → β × σ) (xs : List α) (s : σ) :
-    (mapSt f xs s).1.length = xs.length := by
-  induction xs generalizing s with
-  | nil => rfl
-  | cons a as ih => simp [mapSt, ih]
+open Tart Tart.Spec
+
+/-- Whatever a resolver returned, a successfully completed value conforms to the declared type:
+    lists where declared, no null at non-null positions, Int integral within 32 bits, Float finite,
+    String/ID strings, Boolean booleans, enum results among the declared values, abstract positions
+    completed as one of their possible object types, every object member the completed value of a
+    field of that object type. -/
+theorem completed_value_conforms (fuel : Nat) (ctx : Ctx) (ty : TypeRef) (pt fname : String)
+    (nodes : List Selection) (path : List PathSeg) (x : PyVal) (st : St) (v : PyVal)
+    (h : (run fuel ctx (.complete ty pt fname nodes path x) st).1 = .ok v) : Conforms ctx.S ty v :=
+  run_conf fuel ctx (.complete ty pt fname nodes path x) st v h
+
+/-- A successfully executed selection set is an object whose members all conform. -/
+theorem selection_set_conforms (fuel : Nat) (ctx : Ctx) (tn : String) (parent : PyVal) (path : List PathSeg)
+    (coll : Collected) (serial : Bool) (st : St) (v : PyVal)
+    (h : (run fuel ctx (.fields tn parent path coll serial) st).1 = .ok v) :
+    ∃ kvs, v = .dict kvs ∧ MembersOK ctx.S tn kvs := by
+  obtain ⟨kvs, hv, hm⟩ := run_conf fuel ctx (.fields tn parent path coll serial) st v h
+  exact ⟨kvs, hv, membersOK_of_forall _ _ _ hm⟩
+
+/-- A leaf produced by a built-in scalar's `coerce_output` (generated code) has the wire type. -/
+theorem leaf_has_wire_type (o : Oracle) (tn : String) (v r : PyVal) (h : scalarOut o tn v = .ok r) : LeafOK tn r :=
+  scalarOut_leaf o tn v r h
+
+/-- Conforming data is JSON-serialisable (no NaN / infinity, no foreign objects). -/
+theorem conforming_is_json {S : Schema} {ty : TypeRef} {v : PyVal} (h : Conforms S ty v) : JsonOK v :=
+  conforms_json h
+
+/-- Request level: `data` is null, or an object whose members conform to the root operation type
+    (hence JSON-serialisable); there is no third outcome — `executeRequest` is a total function. -/
+theorem response_data_conforms (fuel : Nat) (S : Schema) (o : Oracle) (env : Env) (doc : Document)
+    (opName : Option String) (rawVars : List (String × PyVal)) (root : PyVal) :
+    (executeRequest fuel S o env doc opName rawVars root).data = .none ∨
+    ∃ rt kvs, (executeRequest fuel S o env doc opName rawVars root).data = .dict kvs ∧ MembersOK S rt kvs := by
+  unfold executeRequest
+  cases hsel : selectOperation doc opName with
+  | none => simp
+  | some op =>
+    simp only []
+    cases hcv : coerceVariables fuel S o op.varDefs rawVars with
+    | mk vars verrs =>
+      simp only []
+      by_cases hve : (!verrs.isEmpty) = true
+      · simp only [hve, if_true]; simp
+      · simp only [hve]
+        cases hrt : rootTypeName S op.kind with
+        | none => simp
+        | some rt =>
+          simp only []
+          cases hrun : run fuel ⟨S, doc, vars, env, o⟩ (.fields rt root []
+              (collectFields fuel ⟨S, doc, vars, env, o⟩ rt op.sels ([], [])).1 (op.kind == .mutation)) {} with
+          | mk r st =>
+            cases r with
+            | error e => simp
+            | ok d =>
+              simp only []
+              right
+              obtain ⟨kvs, hv, hm⟩ := selection_set_conforms fuel ⟨S, doc, vars, env, o⟩ rt root [] _ _ {} d (by rw [hrun])
+              exact ⟨rt, kvs, hv, hm⟩
+
+/-- non-vacuity: an adversarial value at an Int position is refused, a good one conforms -/
+def S0 : Schema := ⟨[.scalar "Int", .object "Query" [⟨"n", .named "Int", [], true, true⟩] []], "Query", none, none⟩
+def ctx0 : Ctx := ⟨S0, ⟨[], []⟩, [], ⟨[], [], []⟩, ⟨fun _ => none⟩⟩
+example : (run 5 ctx0 (.complete (.named "Int") "Query" "n" [] [.key "n"] (.float .nan)) ({} : St)).1 = .error (.raw "leaf" false "" []) := by rfl
+example : (run 5 ctx0 (.complete (.named "Int") "Query" "n" [] [.key "n"] (.int 7)) ({} : St)).1 = .ok (.int 7) := by rfl
+
 end Tart.C03
